@@ -350,7 +350,10 @@ func (i *iteratorRole) IsEnabled() bool {
 	if i == nil || i.template == nil {
 		return false
 	}
-	return i.template.IsEnabled()
+	// Only meaningful after ProcessTemplates: the template's own `enabled` is never
+	// evaluated (each generated role evaluates its copy), so the iterator is
+	// enabled iff it has produced at least one enabled role.
+	return len(i.Roles) > 0
 }
 
 func (i *iteratorRole) setParent(role Updatable) {
